@@ -1911,6 +1911,10 @@ func (h *fsmHandler) recvMessageloop(ctx context.Context, conn net.Conn, holdtim
 				doCallback := true
 				m := fmsg.MsgData.(*bgp.BGPMessage)
 				switch m.Header.Type {
+				case bgp.BGP_MSG_OPEN:
+					// RFC 6608: an OPEN is an unexpected message in Established
+					nonblockSendChannel(h.fsm.notification, bgp.NewBGPNotificationMessage(bgp.BGP_ERROR_FSM_ERROR, bgp.BGP_ERROR_SUB_RECEIVE_UNEXPECTED_MESSAGE_IN_ESTABLISHED_STATE, nil))
+					return
 				case bgp.BGP_MSG_ROUTE_REFRESH:
 					// nothing to do here
 				case bgp.BGP_MSG_UPDATE:
